@@ -62,7 +62,9 @@ def run(ck):
                         chain_refs |= set(t.get("refs") or [])
                         chain_txt.append(t.get("cond") or "")
             full = " ".join(chain_txt)
-            has_end = endp is not None and ("v:" + endp) in chain_refs
+            # the end pointer is tested in the bail-out itself, or through a bool local computed from it
+            end_derived = lib.derived_vars(f, {endp}) if endp else set()
+            has_end = endp is not None and any(("v:" + v_) in chain_refs for v_ in end_derived)
             has_min = "c:" + P + "Port::min" in chain_refs
             has_max = "c:" + P + "Port::max" in chain_refs
             has_val = src is not None and ("v:" + src) in chain_refs
